@@ -147,9 +147,21 @@ package didnuts
 //@ func (jwk.Key).Remove
 //@   trusted
 //@   benign
+// An accepted entry id has a fragment, is - fragment removed - exactly the document's DID (not merely
+// prefixed by it), was not used by an earlier entry, and is recorded for the entries that follow.
 //@ func verifyDocumentEntryID
 //@   prop C09
-//@   assume-benign
+//@   requires knownIDs != nil
+//@   modifies *knownIDs
+//@   ensures [id-not-used-before-and-recorded] isNilIface(result) ==> same(arg(call (go-did.URI).String #1, 0), entryID)
+//@        && !(ret(call (go-did.URI).String #1) in old(knownIDs) && old(knownIDs[ret(call (go-did.URI).String #1)]))
+//@        && ret(call (go-did.URI).String #1) in knownIDs && knownIDs[ret(call (go-did.URI).String #1)]
+//@   ensures [entry-id-is-did-plus-fragment] isNilIface(result) ==> old(entryID.Fragment) != ""
+//@        && did(call (go-did.URI).String #2) && ret(call (go-did.URI).String #2) == owner.String()
+//@        && arg(call (go-did.URI).String #2, 0).Fragment == "" && arg(call (go-did.URI).String #2, 0).Scheme == old(entryID.Scheme)
+//@        && arg(call (go-did.URI).String #2, 0).Opaque == old(entryID.Opaque) && arg(call (go-did.URI).String #2, 0).Host == old(entryID.Host)
+//@        && arg(call (go-did.URI).String #2, 0).Path == old(entryID.Path) && arg(call (go-did.URI).String #2, 0).RawQuery == old(entryID.RawQuery)
+//@   ensures [earlier-ids-stay-recorded] forall k string :: (k in old(knownIDs) && old(knownIDs[k])) ==> (k in knownIDs && knownIDs[k])
 
 // The fragment is compared with the key id AssignKeyID calculates; AssignKeyID keeps a kid that is
 // already present (jwx: key.go), so the kid member must have been discarded from this key first.
